@@ -45,6 +45,24 @@ CLAIMED["C19"] = (
     "",
 )
 
+_API = ("TLA+ stage machine (Pipeline.tla) checked exhaustively by TLC with untrusted chemistry stages; rows "
+        "returned by real rebalance() runs judged by TLC against the API.tla clauses (trace validation)")
+_APITXT = ("TLC explores every combination of stage outcomes of the one-row pipeline model (gates, both reverts, "
+           "re-check of curated rows, issue life cycle, statistics) and checks the clause in the final state; the "
+           "as-built / mutated variants must yield counterexamples. The real pipeline is run on a seeded mix of "
+           "corpus, derived (reversed / unioned / doubled / molecule dropped), redox-template, ionic, isotopic, "
+           "heavy-element and marker-substring reactions under several batch sizes, worker counts and thresholds; "
+           "every returned row is projected by the RDKit oracle (molecule identities, compositions, charges) and "
+           "every clause of the property is evaluated on every row by TLC. ")
+CLAIMED["C01"] = (_API, _APITXT + "Clause: solved => parses and both sides have identical composition and charge.", "5/C01", "")
+CLAIMED["C02"] = (_API, _APITXT + "Clauses: multiset of input molecules contained in the result per side; input_reaction "
+                  "is the same molecules without atom maps.", "5/C02", "")
+CLAIMED["C03"] = (_API, _APITXT + "Clauses: declined => reaction string equals input_reaction and a non-empty issue; solved => "
+                  "method named and issue empty/absent; product-side carbon excess => declined.", "5/C03", "")
+CLAIMED["C04"] = (_API, _APITXT + "Clauses: oracle-balanced input => solved, input-balanced, unchanged; input-balanced label => "
+                  "oracle-balanced input and nothing added.", "5/C04", "")
+CLAIMED["C18"] = (_API, _APITXT + "Clauses: the eight count relations between the stats dictionary of each call and its rows.", "5/C18", "")
+
 PENDING_REASON = "check not built yet in this round (planned, see DESIGN.md section 5); not claimed until it passes on the unchanged tree"
 
 
